@@ -18,7 +18,7 @@ TRACE = 'SPECIFICATION TraceSpec\nCHECK_DEADLOCK FALSE\n'
 
 def gen_cfg(maxedits, names):
     return ('CONSTANTS Names = {%s} MaxClock = 60 AllowCrash = FALSE '
-            'Fixed = TRUE MaxEdits = %d\nSPECIFICATION GSpec\nCONSTRAINT Bound\n'
+            'Fixed = TRUE Backend = "make" AtomicMk = FALSE MaxEdits = %d\nSPECIFICATION GSpec\nCONSTRAINT Bound\n'
             'INVARIANT Emit\nCHECK_DEADLOCK FALSE\n' % (
                 ', '.join('"%s"' % n for n in names), maxedits))
 
